@@ -68,8 +68,9 @@ class Contract(object):
                  raises_ensures=None, returns=None, assigns=(), loops=None, inline=(), specns=None,
                  prop=None, note='', pure=False, may_raise_any=False, trusted=False, exc_ensures=(),
                  setup=None, model=None, raises_local=None, raises_only_if=None, heavy=False, ghost=None, exc_fields=None,
-                 at_call=None):
+                 at_call=None, trace_ensures=False):
         self.target = target
+        self.trace_ensures = trace_ensures   # ensures speak about this call's own trace: proved, not assumed by callers
         self.at_call = at_call or {}    # callee name -> spec expressions over the CALLER's state, with _kw / _args bound
         self.exc_fields = exc_fields or {}    # fields known of an exception raised by this function (callers)
         self.ghost = ghost or {}        # name -> spec expression evaluated (and frozen) at function entry
@@ -787,7 +788,7 @@ class Engine(object):
                 raise ContractError('assigns entry %r of %s is not a heap object' % (a, c.target))
         result = c.returns.fresh(ctx, 'ret_' + fv.node.name) if c.returns is not None else NONE
         sfr.locals['result'] = result
-        for e in c.ensures:
+        for e in ([] if c.trace_ensures else c.ensures):
             g = self.eval_spec(ctx, sfr, e)
             if Z.is_false(Z.simp(g)):
                 # vacuity guard: a postcondition that is literally false at a call site would
